@@ -421,6 +421,9 @@ func bulkCases(ctx *core.Ctx) []*PipeCase {
 			if f.p.Kind == "CCITT" && f.p.Rows > 0 && total/row > f.p.Rows {
 				total = f.p.Rows * row
 			}
+			if f.p.Kind == "CCITT" && total/row > ccittMaxRows {
+				total = ccittMaxRows * row // the decoder's documented geometry cap (admissible shape)
+			}
 			kind := DataKinds[r.Intn(len(DataKinds))]
 			d := GenFor(r, f.p, kind, total)
 			var sizes []int
@@ -535,6 +538,9 @@ func chainKey(ps []P) string {
 		case "cc":
 			s = strings.TrimPrefix(CCITTCombo(p), "ccitt/")
 			s = "CCITT[" + strings.ReplaceAll(s, "/", ",") + "]"
+			if p.Cols > 64*2560 {
+				s += "[cols>163840]" // runs longer than 64 make-up codes
+			}
 		}
 		parts = append(parts, s)
 	}
